@@ -1,6 +1,7 @@
 import Proofs.Blockwise.C06Server
 import Proofs.Blockwise.C06History
 import Proofs.Blockwise.C06Lifetime
+import Proofs.Blockwise.C06Overlap
 /-!
 # C06 — block-wise server: handlers see only complete bodies, blocks are exact slices
 
@@ -8,6 +9,11 @@ Model: `AiocoapModel/Blockwise/{BlockOpt,TimeoutDict,Server}.lean` (`step`, `run
 `TD`).  The theorems quantify over every resource state / every request history (`List In`:
 arrival time, request from any endpoint, method, options, and the handler's behaviour at that
 moment), i.e. over all interleavings of request sequences of any number of clients.
+Handlers that suspend (several requests of a resource in flight at once, completing in any order) are
+covered by the section "handlers that overlap in time": `Blockwise/Overlap.lean` splits `step` at the
+`await` of the handler into `carrive` / `cfinish`; `C06_atomic_is_step` shows `step` to be the case of
+a handler that does not suspend, the `C06_overlap_*` theorems quantify over every list of arrival and
+completion events.
 Only property theorems and non-vacuity examples live in this file.
 -/
 set_option linter.unusedVariables false
@@ -69,14 +75,14 @@ theorem C06_bad_continuation_4_08 (T : Nat) (st : RState) (i : In) (b : Blk)
 existing assembly, is answered 4.00 Bad Request (the size is checked before the offset); the handler
 is not invoked and no assembly is altered.  The length contradicts the size when
 * the block has the more flag and is not exactly one block long (BERT, exponent 7: not a multiple
-  of 1024), or
+  of 1024, or empty — a block that is not the last one carries at least one whole block), or
 * the block is the final one, its exponent is below 7 and it is *longer* than one block. -/
 theorem C06_size_contradiction_4_00 (T : Nat) (st : RState) (i : In) (b : Blk) (asm : Msg)
     (ha : i.assemble = true) (hb : i.req.block1 = some b) (h0 : b.num ≠ 0)
     (hl : alookup (blockKey i.req) (spoolAt T st i).items = some asm)
     (hc : isRequestCode asm.code = true)
     (hsize : (b.more = true ∧ i.req.payload.length ≠ b.size ∧
-                ¬ (b.szx = 7 ∧ i.req.payload.length % b.size = 0)) ∨
+                ¬ (b.szx = 7 ∧ i.req.payload.length % b.size = 0 ∧ 0 < i.req.payload.length)) ∨
              (b.more = false ∧ b.szx ≠ 7 ∧ b.size < i.req.payload.length)) :
     (step T st i).2.resp = errResp BAD_REQUEST none ∧ (step T st i).2.seen = none ∧
     (step T st i).1.spool.items = (spoolAt T st i).items ∧
@@ -97,7 +103,7 @@ block key is neither discarded nor refreshed — and the rendering cache is not 
 theorem C06_block0_size_contradiction_4_00 (T : Nat) (st : RState) (i : In) (b : Blk)
     (ha : i.assemble = true) (hb : i.req.block1 = some b) (h0 : b.num = 0)
     (hsize : (b.more = true ∧ i.req.payload.length ≠ b.size ∧
-                ¬ (b.szx = 7 ∧ i.req.payload.length % b.size = 0)) ∨
+                ¬ (b.szx = 7 ∧ i.req.payload.length % b.size = 0 ∧ 0 < i.req.payload.length)) ∨
              (b.more = false ∧ b.szx ≠ 7 ∧ b.size < i.req.payload.length)) :
     (step T st i).2.resp = errResp BAD_REQUEST none ∧ (step T st i).2.seen = none ∧
     (step T st i).1.spool = spoolAt T st i ∧
@@ -112,9 +118,9 @@ theorem C06_block0_size_contradiction_4_00 (T : Nat) (st : RState) (i : In) (b :
 length does not contradict the block size in the sense of `C06_size_contradiction_4_00` -/
 theorem C06_size_check_meaning (b : Blk) (len : Nat) :
     sizeOk b len = true ↔
-      (b.more = true → len = b.size ∨ (b.szx = 7 ∧ len % b.size = 0)) ∧
+      (b.more = true → len = b.size ∨ (b.szx = 7 ∧ len % b.size = 0 ∧ 0 < len)) ∧
       (b.more = false → b.szx = 7 ∨ len ≤ b.size) := by
-  cases hm : b.more <;> simp [sizeOk, hm]
+  cases hm : b.more <;> simp [sizeOk, hm, and_assoc]
 
 /-- **C06 (nothing else is let through).** The case analysis is complete: a Block1 block that is
 not `Accepted` — whatever the reason — is answered 4.08 or 4.00, does not reach the handler, and
@@ -850,6 +856,184 @@ theorem C06_accepted_block_extends_assembly (T : Nat) (st : RState) (cur : In) (
       · exact Or.inl ⟨h0, by rw [hpay, e]; rfl⟩
       · exact Or.inr ⟨h0, old, hl, by rw [hpay, e]⟩
 
+-- the block key ------------------------------------------------------------------------------------------
+
+/-- **C06 (one endpoint, one method, one set of cache-key options).** Two requests are filed under
+the same block key exactly when they agree in the endpoint (`remote.blockwise_key`), the request
+code, the path the request was sent to where a `Site` has taken it out of the options
+(`_original_request_path`), and the remaining cache-key options (all options but Block1, Block2,
+Observe and the NoCacheKey ones) — so a resource object that is registered under two paths keeps
+the transfers at the two paths apart, and every theorem above that speaks of "the block key" speaks
+of all four components. -/
+theorem C06_block_key_components (m1 m2 : Msg) :
+    blockKey m1 = blockKey m2 ↔
+      m1.remote.key = m2.remote.key ∧ m1.code = m2.code ∧ m1.origPath = m2.origPath ∧
+      cacheKeyOpts m1.opts = cacheKeyOpts m2.opts := by
+  simp [blockKey]
+
+-- handlers that overlap in time --------------------------------------------------------------------------
+
+/-- **C06 (handlers that do not suspend: `step`).** The model with overlapping handlers
+(`carrive` / `cfinish`: `extract_or_insert` split at its `await`) contains the sequential one: in
+any state — whatever is pending under other block keys — in which no request for the beginning is
+being built under the block key concerned, a request that arrives and whose handler, if it is
+invoked with `m`, ends at once with `i.render m`, leaves spool and cache exactly as `step` leaves
+them, is answered exactly as `step` answers it, and the handler sees what it sees in `step`; nothing
+stays pending.  All theorems about `step` are therefore theorems about this special case. -/
+theorem C06_atomic_is_step (T : Nat) (st : CState) (i : In)
+    (hids : ∀ q ∈ st.pending, q.id ≠ st.next)
+    (hkey : ∀ m, Passes T st.r i m → alookup (blockKey m) st.building = none) :
+    ((carrive T st (arrOf i)).2.ticket = none →
+      (carrive T st (arrOf i)).2.resp = some (step T st.r i).2.resp ∧
+      (carrive T st (arrOf i)).2.seen = none ∧ (step T st.r i).2.seen = none ∧
+      (carrive T st (arrOf i)).1 = { st with r := (step T st.r i).1 }) ∧
+    (∀ id, (carrive T st (arrOf i)).2.ticket = some id →
+      ∃ m, (carrive T st (arrOf i)).2.seen = some m ∧ (step T st.r i).2.seen = some m ∧
+        (carrive T st (arrOf i)).2.resp = none ∧
+        (cfinish T (carrive T st (arrOf i)).1 i.now id (i.render m)).2 =
+          { resp := some (step T st.r i).2.resp, seen := none, ticket := some id } ∧
+        (cfinish T (carrive T st (arrOf i)).1 i.now id (i.render m)).1 =
+          { st with r := (step T st.r i).1, next := st.next + 1 }) :=
+  carrive_cfinish_eq_step T st i hids hkey
+
+/-- **C06 (overlapping handlers: the handler still sees the in-order concatenation).** Block1 blocks
+are assembled when they arrive, before any handler is awaited, so suspended handlers change nothing
+for the spool: after any sequence of events (arrivals and handler completions in any order) the
+spool is the one of the sequential model after the arrivals alone, and a handler invoked on an
+arrival sees what `C06_handler_sees_concatenation` says — the request itself, or the in-order
+concatenation of Block1 blocks received under one block key, ending with this one. -/
+theorem C06_overlap_handler_sees_concatenation (T : Nat) (pre : List Ev) (a : Arr) (m : Msg)
+    (ha : a.assemble = true)
+    (hseen : (carrive T (cstateAfter T CState.init pre) a).2.seen = some m) :
+    (cstateAfter T CState.init pre).r.spool = (stateAfter T RState.init (arrivals pre)).spool ∧
+    ((a.req.block1 = none ∧ m = a.req) ∨
+     (blockKey m = blockKey a.req ∧
+      ∃ blocks, Assembly (blockKey a.req) blocks m.payload ∧
+        blocks.Sublist (received (arrivals pre ++ [inOf a])) ∧ blocks.getLast? = some a.req ∧
+        AllMore blocks.dropLast)) := by
+  have hsp := cstateAfter_spool T pre CState.init RState.init rfl
+  refine ⟨hsp, ?_⟩
+  obtain ⟨hf, hfresh⟩ := carrive_seen ha hseen
+  rw [hsp] at hf
+  have hp : Passes T (stateAfter T RState.init (arrivals pre)) (inOf a) m := ⟨ha, hf⟩
+  have hs : (step T (stateAfter T RState.init (arrivals pre)) (inOf a)).2.seen = some m := by
+    rw [step_pass hp]
+    simp only
+    cases hr : (inOf a).render m with
+    | ok r => simp [inOf] at hr
+    | error code => rw [extract_fresh_raised hfresh hr]; rfl
+  exact C06_handler_sees_concatenation T (arrivals pre) (inOf a) m ha hs
+
+/-- **C06 (overlapping handlers: later blocks come from the rendering of the latest request for the
+beginning).** After any sequence of events on a resource — requests arriving, their handlers
+returning or raising in any order, at any times — a request that reaches the second stage asking for
+a later block (`num ≠ 0`) is answered at once, without the handler, and either with 4.08, or from
+the representation `r` that the handler returned for the request whose token `id` is the *last*
+entry of its block key in the log of handler invocations in order of arrival (`started`) — the
+latest request for the beginning under that key, however many older ones were still being rendered
+when it arrived and whichever finished last.  The answer is then `r`'s block as in
+`C06_block2_is_slice`, or 4.00 beyond its end (`sliceOf`). -/
+theorem C06_overlap_later_block_from_latest_request (T : Nat) (pre : List Ev) (a : Arr) (m : Msg) (b : Blk)
+    (ha : a.assemble = true)
+    (hp : (feedAndTake T a.now ((cstateAfter T CState.init pre).r.spool.advance T a.now) a.req).2 = .pass m)
+    (hb : m.block2 = some b) (h0 : b.num ≠ 0) :
+    (carrive T (cstateAfter T CState.init pre) a).2.seen = none ∧
+    (carrive T (cstateAfter T CState.init pre) a).2.ticket = none ∧
+    ((carrive T (cstateAfter T CState.init pre) a).2.resp = some (errResp REQUEST_ENTITY_INCOMPLETE none) ∨
+     ∃ id r, lastOf (blockKey m) (ghostAfter T CState.init Ghost.init pre).started = some id ∧
+       alookup id (ghostAfter T CState.init Ghost.init pre).ended = some (.ok r) ∧
+       (carrive T (cstateAfter T CState.init pre) a).2.resp = some (respondExtract m (sliceOf r m))) := by
+  have hinv : OInv (cstateAfter T CState.init pre) (ghostAfter T CState.init Ghost.init pre) :=
+    cstateAfter_oinv pre oinv_init
+  have hf : isFresh m = false := isFresh_later hb h0
+  generalize cstateAfter T CState.init pre = st at hinv hp ⊢
+  generalize ghostAfter T CState.init Ghost.init pre = g at hinv ⊢
+  by_cases hbld : isBuilding st (blockKey m) = true
+  · simp [carrive, ha, hp, hf, hbld, COut.answer]
+  · have hbld' : isBuilding st (blockKey m) = false := by simpa using hbld
+    have hnone : alookup (blockKey m) st.building = none := by
+      simpa [isBuilding] using hbld'
+    cases hl : alookup (blockKey m) (st.r.cache.advance T a.now).items with
+    | none =>
+      simp [carrive, ha, hp, hf, hbld', COut.answer, extract_later_none hb h0 hl, respondExtract]
+    | some r =>
+      obtain ⟨id, h1, h2⟩ := hinv.cache _ r hnone (advance_lookup_some hl)
+      refine ⟨?_, ?_, Or.inr ⟨id, r, h1, h2, ?_⟩⟩ <;>
+        simp [carrive, ha, hp, hf, hbld', COut.answer, extract_later_some hb h0 hl]
+
+/-- … hence: while the latest request for the beginning under a block key is still being rendered,
+after its handler raised, or when no handler was ever invoked for the key, a later block is answered
+4.08 — never from a rendering made for an older request -/
+theorem C06_overlap_no_rendering_of_latest_4_08 (T : Nat) (pre : List Ev) (a : Arr) (m : Msg) (b : Blk)
+    (ha : a.assemble = true)
+    (hp : (feedAndTake T a.now ((cstateAfter T CState.init pre).r.spool.advance T a.now) a.req).2 = .pass m)
+    (hb : m.block2 = some b) (h0 : b.num ≠ 0)
+    (hnone : ∀ id, lastOf (blockKey m) (ghostAfter T CState.init Ghost.init pre).started = some id →
+      ∀ r, alookup id (ghostAfter T CState.init Ghost.init pre).ended ≠ some (.ok r)) :
+    (carrive T (cstateAfter T CState.init pre) a).2.resp = some (errResp REQUEST_ENTITY_INCOMPLETE none) := by
+  rcases (C06_overlap_later_block_from_latest_request T pre a m b ha hp hb h0).2.2 with h | ⟨id, r, h1, h2, _⟩
+  · exact h
+  · exact absurd h2 (hnone id h1 r)
+
+/-- **C06 (overlapping handlers: what a completed handler does).** When the handler of a pending
+request for the beginning `p.m` ends with `out`, the request is answered from its own outcome — the
+first block of its own rendering, the whole rendering if it fits, or the rendered exception
+(`afterBuild … .2` does not depend on `latest`) —, and if a newer request for the beginning under
+its block key has arrived in the meantime (its token is no longer the one in `_building`) the
+rendering cache keeps exactly what it kept (timers aside) and `_building` is not touched: the
+superseded rendering is neither stored nor does it drop anything. -/
+theorem C06_overlap_completion (T : Nat) (st : CState) (now id : Nat) (out : Outcome) (p : Pending)
+    (hfind : st.pending.find? (fun q => q.id == id) = some p) (hv : p.viaCache = true) :
+    (cfinish T st now id out).2.resp =
+      some (respondExtract p.m (afterBuild T now (st.r.cache.advance T now) p.m out true).2) ∧
+    (alookup (blockKey p.m) st.building ≠ some id →
+      (cfinish T st now id out).1.r.cache = st.r.cache.advance T now ∧
+      (cfinish T st now id out).1.building = st.building) := by
+  constructor
+  · simp only [cfinish, hfind, hv, ↓reduceIte]
+    rw [afterBuild_response T now _ p.m out _ true]
+  · intro hne
+    have : (alookup (blockKey p.m) st.building == some id) = false := by simp [hne]
+    simp [cfinish, hfind, hv, this, afterBuild_not_latest]
+
+/-- the log of handler invocations, spelled out: an arrival on which the handler is invoked through
+the rendering cache with `m` appends `(blockKey m, token)` to `started` — in order of *arrival* —, a
+completion appends `(token, outcome)` to `ended`; nothing else changes the log -/
+theorem C06_overlap_log_meaning (T : Nat) (st : CState) (g : Ghost) (e : Ev) (rest : List Ev) :
+    ghostAfter T st g (e :: rest) = ghostAfter T (cstep T st e).1 (ghostStep g e (cstep T st e).2) rest ∧
+    (∀ a, e = .arrive a → a.assemble = true →
+      ghostStep g e (cstep T st e).2 =
+        match (carrive T st a).2.seen with
+        | some m => { g with started := g.started ++ [(blockKey m, st.next)] }
+        | none => g) ∧
+    (∀ now id out, e = .finish now id out →
+      ghostStep g e (cstep T st e).2 =
+        if (st.pending.find? (fun q => q.id == id)).isSome then { g with ended := g.ended ++ [(id, out)] }
+        else g) := by
+  refine ⟨rfl, ?_, ?_⟩
+  · intro a he ha
+    subst he
+    simp only [cstep, ghostStep, ha, ↓reduceIte]
+    cases hfe : (feedAndTake T a.now (st.r.spool.advance T a.now) a.req).2 with
+    | cont b => simp [carrive, ha, hfe, COut.answer]
+    | incomplete => simp [carrive, ha, hfe, COut.answer]
+    | badRequest => simp [carrive, ha, hfe, COut.answer]
+    | keyError => simp [carrive, ha, hfe, COut.answer]
+    | pass m =>
+      by_cases hf : isFresh m = true
+      · simp [carrive, ha, hfe, hf]
+      · have hf' : isFresh m = false := by simpa using hf
+        by_cases hb : isBuilding st (blockKey m) = true
+        · simp [carrive, ha, hfe, hf', hb, COut.answer]
+        · have hb' : isBuilding st (blockKey m) = false := by simpa using hb
+          simp [carrive, ha, hfe, hf', hb', COut.answer]
+  · intro now id out he
+    subst he
+    simp only [cstep, ghostStep]
+    cases hfind : st.pending.find? (fun q => q.id == id) with
+    | none => simp [cfinish, hfind]
+    | some p => by_cases hv : p.viaCache = true <;> simp [cfinish, hfind, hv]
+
 -- non-vacuity and sanity ---------------------------------------------------------------------------
 
 section examples
@@ -1002,7 +1186,8 @@ example : TimeOrdered 0 exampleHistory3 := by simp [exampleHistory3, TimeOrdered
 
 /-- `C06_block0_size_contradiction_4_00`: both kinds of contradiction occur (steps 0 and 3) -/
 example : (⟨0, true, 0⟩ : Blk).more = true ∧ (List.replicate 32 65).length ≠ (⟨0, true, 0⟩ : Blk).size ∧
-    ¬ ((⟨0, true, 0⟩ : Blk).szx = 7 ∧ (List.replicate 32 65).length % (⟨0, true, 0⟩ : Blk).size = 0) := by
+    ¬ ((⟨0, true, 0⟩ : Blk).szx = 7 ∧ (List.replicate 32 65).length % (⟨0, true, 0⟩ : Blk).size = 0 ∧
+       0 < (List.replicate 32 65).length) := by
   decide
 example : (⟨0, false, 0⟩ : Blk).more = false ∧ (⟨0, false, 0⟩ : Blk).szx ≠ 7 ∧
     (⟨0, false, 0⟩ : Blk).size < (List.replicate 17 65).length := by decide
@@ -1041,6 +1226,73 @@ example : obsEntry { (put epA none (some ⟨0, false, 0⟩) []) with code := 5, 
 example : obsEntry { (put epA none none []) with code := 5, opts := [(6, [1]), (11, [97])] } = .plain := by
   decide
 example : obsEntry (put epA none none []) = .plain := by decide
+
+/-- an empty block with the more flag and size exponent 7 contradicts its block size (first case of
+`C06_size_contradiction_4_00` / `C06_block0_size_contradiction_4_00`); 2048 bytes do not -/
+example : (⟨1, true, 7⟩ : Blk).more = true ∧ (0 : Nat) ≠ (⟨1, true, 7⟩ : Blk).size ∧
+    ¬ ((⟨1, true, 7⟩ : Blk).szx = 7 ∧ 0 % (⟨1, true, 7⟩ : Blk).size = 0 ∧ 0 < (0 : Nat)) := by decide
+example : sizeOk ⟨1, true, 7⟩ 0 = false ∧ sizeOk ⟨0, true, 7⟩ 0 = false ∧ sizeOk ⟨1, true, 7⟩ 2048 = true ∧
+    sizeOk ⟨1, false, 7⟩ 0 = true := by decide
+
+/-- `C06_block_key_components`: the same request sent to two paths of one resource object (the `Site`
+has taken the path out of the options) has two block keys; block 1 sent to the other path finds no
+assembly -/
+private def viaSite (path : List Bytes) (m : Msg) : Msg := { m with opts := [], origPath := some path }
+example : blockKey (viaSite [[105, 110]] (put epA none none [])) ≠
+    blockKey (viaSite [[97], [105, 110]] (put epA none none [])) := by decide
+example : (run 10 RState.init
+      [ rq 0 (viaSite [[105, 110]] (put epA (some ⟨0, true, 0⟩) none (List.replicate 16 65))) (ok []),
+        rq 1 (viaSite [[97], [105, 110]] (put epA (some ⟨1, false, 0⟩) none [1, 2, 3])) (ok []),
+        rq 2 (viaSite [[105, 110]] (put epA (some ⟨1, false, 0⟩) none [1, 2, 3])) (ok []) ]).map
+      (fun o => (o.resp.code, o.seen.map (·.payload.length))) =
+    [(95, none), (136, none), (69, some 19)] := by decide
+
+/-- overlapping handlers: a request for the beginning arrives at 0 (its handler takes until 5 and
+renders 40 × 1), a second one under the same block key at 1 (done at 2, 40 × 2); block 1 asked for
+at 1 (both pending) and at 3 (the older one still pending) and at 10.  Answers: the two pending ones
+none yet, 4.08 while the latest has no rendering, block 0 of 2…, block 1 of 2…, block 0 of 1… for the
+superseded request, and block 1 of 2… — the rendering of the request that arrived last, not of the
+one that finished last. -/
+private def getA (b2 : Blk) : Msg :=
+  { remote := epA, code := 1, opts := [(11, [97])], block1 := none, block2 := some b2, payload := [] }
+private def rendering (x : Nat) : Outcome :=
+  .ok { code := 69, opts := [], block1 := none, block2 := none, payload := List.replicate 40 x }
+private def overlapHistory : List Ev :=
+  [ .arrive { now := 0, assemble := true, req := getA ⟨0, false, 0⟩ },
+    .arrive { now := 1, assemble := true, req := getA ⟨0, false, 0⟩ },
+    .arrive { now := 1, assemble := true, req := getA ⟨1, false, 0⟩ },
+    .finish 2 1 (rendering 2),
+    .arrive { now := 3, assemble := true, req := getA ⟨1, false, 0⟩ },
+    .finish 5 0 (rendering 1),
+    .arrive { now := 10, assemble := true, req := getA ⟨1, false, 0⟩ } ]
+
+example : (crun 100 CState.init overlapHistory).map
+      (fun o => (o.resp.map (fun r => (r.code, r.block2, r.payload.head?)), o.ticket)) =
+    [ (none, some 0), (none, some 1), (some (136, none, none), none),
+      (some (69, some ⟨0, true, 0⟩, some 2), some 1),
+      (some (69, some ⟨1, true, 0⟩, some 2), none),
+      (some (69, some ⟨0, true, 0⟩, some 1), some 0),
+      (some (69, some ⟨1, true, 0⟩, some 2), none) ] := by decide
+/-- the hypotheses of `C06_overlap_later_block_from_latest_request` at the last event, and the log -/
+example : (feedAndTake 100 10 ((cstateAfter 100 CState.init (overlapHistory.take 6)).r.spool.advance 100 10)
+      (getA ⟨1, false, 0⟩)).2 = .pass (getA ⟨1, false, 0⟩) := by decide
+example : (ghostAfter 100 CState.init Ghost.init (overlapHistory.take 6)).started =
+      [(blockKey (getA ⟨0, false, 0⟩), 0), (blockKey (getA ⟨0, false, 0⟩), 1)] ∧
+    (ghostAfter 100 CState.init Ghost.init (overlapHistory.take 6)).ended = [(1, rendering 2), (0, rendering 1)] ∧
+    lastOf (blockKey (getA ⟨1, false, 0⟩)) (ghostAfter 100 CState.init Ghost.init (overlapHistory.take 6)).started
+      = some 1 := by decide
+/-- `C06_overlap_completion`: at the sixth event token 0 is pending and no longer the one in `_building` -/
+example : ((cstateAfter 100 CState.init (overlapHistory.take 5)).pending.find? (fun q => q.id == 0)).map (·.viaCache)
+      = some true ∧
+    alookup (blockKey (getA ⟨0, false, 0⟩)) (cstateAfter 100 CState.init (overlapHistory.take 5)).building = none :=
+  by decide
+/-- `C06_atomic_is_step`: its hypotheses hold in the initial state, and in a state where another block
+key has a pending request -/
+example : (∀ q ∈ CState.init.pending, q.id ≠ CState.init.next) ∧
+    alookup (blockKey (put epA none none [])) CState.init.building = none := by
+  constructor
+  · intro q hq; simp [CState.init] at hq
+  · rfl
 
 /-- TimeoutDict: set at 0 with T = 10, other key accessed at 5; present at 9, absent at 20 -/
 example : ((TD.runOps 10 (TD.empty : TD Nat Nat) [(0, .set 1 7), (5, .set 2 8)]).advance 10 9).present 1
